@@ -15,7 +15,7 @@ for p in selftest/mutants/${PROP}-*.patch; do
   if ! (cd "$tmp" && patch -p1 -s < "/verif/$p"); then
     echo "SELFTEST-SKIP $p does not apply to the current tree"; rm -rf "$tmp"; continue
   fi
-  out=$(./bin/govc check -repo "$tmp" -prop "$PROP" -no-evidence -replays "$tmp/.replays" 2>&1)
+  out=$(./bin/govc check -repo "$tmp" -prop "$PROP" -no-evidence -no-retry -replays "$tmp/.replays" 2>&1)
   rm -rf "$tmp"
   if grep -q "^VIOLATION property=$PROP .*obligation=[^ ]*$want" <<<"$out"; then
     echo "mutant caught: $p ($want)"
@@ -33,7 +33,7 @@ for d in seeded/${PROP}-*/; do
   if ! (cd "$tmp" && patch -p1 -s < "/verif/$d/patch.diff"); then
     echo "SELFTEST-SKIP $d does not apply to the current tree"; rm -rf "$tmp"; continue
   fi
-  out=$(./bin/govc check -repo "$tmp" -prop "$PROP" -no-evidence -replays "$tmp/.replays" 2>&1)
+  out=$(./bin/govc check -repo "$tmp" -prop "$PROP" -no-evidence -no-retry -replays "$tmp/.replays" 2>&1)
   rm -rf "$tmp"
   if grep -q "^VIOLATION property=$PROP " <<<"$out"; then
     echo "seeded change caught: $d ($(grep -m1 '^VIOLATION' <<<"$out" | sed 's/.*obligation=\([^ ]*\).*/\1/'))"
